@@ -343,6 +343,8 @@ def explain(case, f):
     if (q.get("star") and q.get("limit", 0) > 0 and ft.get("nseries", 0) > q.get("limit", 0) + q.get("offset", 0)
             and ((not desc and q.get("has_tmin")) or (desc and q.get("has_tmax")))):
         ids.append("C08-limit-prune-time-range")
+    if ft.get("unknown_bool_eq_false"):
+        ids.append("C08-unknown-bool-field-eq-false")
     if fill == "prev" and ft.get("single_row_group"):
         ids.append("C08-fill-previous-single-row-group")   # last: a failure is attributed to it only when nothing else explains it
     return ids
@@ -441,13 +443,13 @@ def mrow_arow(r, key):
 
 
 def mergecase_coq(c):
-    """(kind, term). Descending streams are mirrored: a descending order is the reverse of the ascending total order."""
+    """Coq term of a merge case. Sorted merge: ascending cases go to merge_k, descending ones unchanged to merge_kd."""
     st = c["stream"]
     desc = st["desc"]
     if st["kind"] == "sortmerge":
         enc = lambda r: mrow_arow(r, r["g"] * 100000 + r["t"])
-        ins = [[enc(r) for r in (reversed(i) if desc else i)] for i in st["inputs"]]
-        got = [enc(r) for r in (reversed(c["got"]) if desc else c["got"])]
+        ins = [[enc(r) for r in i] for i in st["inputs"]]
+        got = [enc(r) for r in c["got"]]
         return "(%s, %s)" % (coq_list([coq_list(i) for i in ins]), coq_list(got))
     hasiv = st["has_iv"]
     key = lambda r: (r["g"] * 1000 + (r["t"] // 10 if hasiv else 0)) * (-1 if desc else 1)
@@ -464,6 +466,17 @@ def op_size(c):
 
 def op_more(ck, out, coq_ok):
     """aggregation, limit and merge operators: direct oracle verdicts + recomputation by the Coq L2 operators"""
+    # executor contract under a failing processor (exec.go): error-or-correct
+    execs = [json.loads(l)["execcase"] for l in out.splitlines() if l.startswith('{"execcase"')]
+    if not execs or not any(c["mode"] == "panic" for c in execs) or any(c["mode"] == "none" and (c.get("err") or c["got_rows"] != c["want_rows"]) for c in execs):
+        ck.broken.append("harness c08op: executor probe missing or its fault-free control runs failed: %s" % execs[:2])
+    silent = [c for c in execs if c.get("silent_short")]
+    sil_known = [c for c in silent if c["mode"] == "panic" and finding_open(ck, "C08-executor-panic-swallowed")]
+    if sil_known:
+        ck.known_finding("C08-executor-panic-swallowed", FINDING_TEXT["C08-executor-panic-swallowed"])
+    for c in [c for c in silent if c not in sil_known][:1]:
+        ck.violation({"kind": "direct-oracle-executor", "what": "PipelineExecutor.Execute returned no error although a stage failed (%s) and the sink "
+                      "received %d of %d rows" % (c["mode"], c["got_rows"], c["want_rows"]), "execcase": c}, tag="op-exec")
     groups = {"aggcase": [], "limitcase": [], "mergecase": []}
     for l in out.splitlines():
         for k in groups:
@@ -519,9 +532,11 @@ def op_more(ck, out, coq_ok):
               aggcase_coq(corrupt(ua[0], "want", {"g": 9, "w": 9, "t": 0, "c": [None] * len(ua[0]["stream"]["calls"])})))
     if ul:
         shard("limitop", "limitop_case", "limitop_mismatches", [limitcase_coq(c) for c in ul], limitcase_coq(ul[0], canary=True))
-    if sm:
-        shard("sortmerge", "sortmerge_case", "sortmerge_mismatches", [mergecase_coq(c) for c in sm],
-              mergecase_coq(corrupt(sm[0], "got", {"g": 7, "t": 77, "c": [None] * len(sm[0]["stream"]["cols"])})))
+    for order, fn in ((False, "sortmerge_mismatches"), (True, "sortmerge_desc_mismatches")):
+        smo = [c for c in sm if bool(c["stream"]["desc"]) == order]
+        if smo:
+            shard("sortmerge_desc" if order else "sortmerge", "sortmerge_case", fn, [mergecase_coq(c) for c in smo],
+                  mergecase_coq(corrupt(smo[0], "got", {"g": 7, "t": 77, "c": [None] * len(smo[0]["stream"]["cols"])})))
     if km:
         shard("kmerge", "kmerge_case", "kmerge_mismatches", [mergecase_coq(c) for c in km],
               mergecase_coq(corrupt(km[0], "got", {"g": 7, "t": 77, "c": [None] * len(km[0]["stream"]["cols"])})))
@@ -537,7 +552,7 @@ def op_more(ck, out, coq_ok):
     return cov
 
 
-PRIORITY = ["C08-fill-previous-desc", "C08-desc-selector-tie", "C08-tie-order", "C08-limit-prune-time-range", "C08-fill-split-path",
+PRIORITY = ["C08-unknown-bool-field-eq-false", "C08-fill-previous-desc", "C08-desc-selector-tie", "C08-tie-order", "C08-limit-prune-time-range", "C08-fill-split-path",
             "C08-desc-agg-overlapping-files", "C08-time-window-agg-store", "C08-desc-first-last", "C08-multicolumn-first-last-across-series",
             "C08-fill-previous-multicolumn", "C08-fill-null-count-fastpath", "C08-fill-previous-single-row-group"]
 
@@ -560,6 +575,10 @@ FINDING_TEXT = {
     "C08-time-window-agg-store": "GROUP BY time() aggregate with a small inner_chunk_size over rows that lack the aggregated field: an empty piece "
                                  "of one series makes the store-side aggregate cursor continue its pending time window into the next series / file "
                                  "(values counted twice or in the wrong partial result)",
+    "C08-unknown-bool-field-eq-false": "`f = false` on a boolean field that does not exist in the measurement is true for every row "
+                                       "(the missing value is cast to false), although the column is shown as null and `f = true` matches nothing",
+    "C08-executor-panic-swallowed": "a panic of a processor is recovered by PipelineExecutor.work, which reports success: Execute returns nil and the "
+                                    "statement answers with the rows produced so far (Crashed() is never consulted)",
     "C08-read-error-swallowed": "a failed read of a data file during an aggregate query (or of a chunk-meta block during any query) is logged or "
                                 "taken for 'cursor exhausted': the statement succeeds with the rows of one series / file missing",
     "C08-desc-agg-overlapping-files": "descending aggregate (time buckets or field filter) over overlapping sources (out-of-order files / memtable): "
@@ -701,7 +720,7 @@ def main(ck):
     for c in cases:
         for f in c["failures"]:
             ids = [i if i in known_ids else alias.get(i, i) for i in explain(c, f)]
-            live = [i for i in ids if ck.match_finding(i)]
+            live = [i for i in ids if finding_open(ck, i)]
             if live:
                 # a failure matching several signatures is charged to the first matching finding of PRIORITY: findings without
                 # a repair first, then those with a proposed patch (fix2.patch, props/C02/fix2.patch), then the ones already
